@@ -197,10 +197,145 @@ def gen_reserved(rng):
     items.append(('instr', 0, [rng.choice([name, '1', name + ' + 1'])] if hasarg else []))
     if rng.chance(0.4):
         items.append(('data', 8, [name]))
+    # constants (and data) that read the name: with a symbol called `pc` they still mean the current address
+    if rng.chance(0.85 if name == 'pc' else 0.5):
+        items.append(('const', 'resume', rng.choice([name, name + ' + 1', '(%s + 0)' % name, name + ' * 1'])))
+        if rng.chance(0.5):
+            items.append(('data', 8, [rng.choice(['resume', 'resume + 1'])]))
+        if rng.chance(0.3):
+            items.append(('const', 'r2', 'resume + 2'))
+        if hasarg and rng.chance(0.4):
+            items.append(('instr', 0, ['resume']))
     if decl not in items:
         items.append(decl)
     items.append(('label', 'fwd'))
     p.items = items
     p.names = [it[1] for it in items if it[0] in ('label', 'const')]     # declaration order
     p.reserved_name = name
+    return p
+
+
+def gen_block_addr(rng):
+    """productions that are blocks whose statements BEFORE the value read the current address (or a label), used with
+    literal arguments behind a block that only gets its size in pass 2: the statements decide which candidate matches, so the
+    instruction is not statically known although its last expression is"""
+    isa = asm_gen.Isa()
+    shape = rng.below(5)
+    o1, o2 = rng.below(256), rng.below(256)
+    addr = rng.choice(['$', 'pc', 'lbl'])
+    if shape == 0:      # complementary candidates of equal size
+        isa.rules.append(dict(m='jmp', ops=[('expr', 'a', None, ('', ''))], prod='{ assert(a < %s), 0x%02x @ a`8 }' % (addr, o1)))
+        isa.rules.append(dict(m='jmp', ops=[('expr', 'a', None, ('', ''))], prod='{ assert(a >= %s), 0x%02x @ a`8 }' % (addr, o2)))
+    elif shape == 1:    # a single candidate: accept / reject flips
+        isa.rules.append(dict(m='jmp', ops=[('expr', 'a', None, ('', ''))], prod='{ assert(a >= %s), 0x%02x @ a`8 }' % (addr, o1)))
+    elif shape == 2:    # no parameter at all
+        isa.rules.append(dict(m='jmp', ops=[], prod='{ assert(%s < %d), 0x%02x }' % (addr, rng.range(1, 4), o1)))
+        isa.rules.append(dict(m='jmp', ops=[], prod='{ assert(%s >= %d), 0x%04x }' % (addr, rng.range(1, 4), rng.below(65536))))
+    elif shape == 3:    # a local assigned from the address, value independent of it
+        isa.rules.append(dict(m='jmp', ops=[('expr', 'a', 'u8', ('', ''))], prod='{ t = %s, assert(t <= a), 0x%02x @ a }' % (addr, o1)))
+        isa.rules.append(dict(m='jmp', ops=[('expr', 'a', 'u8', ('', ''))], prod='{ t = %s, assert(t > a), 0x%02x @ a }' % (addr, o2)))
+    else:               # different sizes
+        isa.rules.append(dict(m='jmp', ops=[('expr', 'a', None, ('', ''))], prod='{ assert(a < %s), 0x%02x }' % (addr, o1)))
+        isa.rules.append(dict(m='jmp', ops=[('expr', 'a', None, ('', ''))], prod='{ assert(a >= %s), 0x%02x @ a`8 }' % (addr, o2)))
+    if rng.chance(0.4):
+        isa.rules.append(dict(m='nop', ops=[], prod='0x00'))
+    p = asm_gen.Prog(isa)
+    k = rng.range(1, 5)
+    items = []
+    front = rng.below(3)
+    if front == 0:
+        items.append(('res', 'fwd - fwd + %d' % k))
+    elif front == 1:
+        items.append(('res', 'pad'))
+    else:
+        items.append(('data', 8, ['0'])); items.append(('res', '(fwd > 0 ? %d : 0)' % k))
+    items.append(('label', 'lbl'))
+    hasarg = bool(isa.rules[0]['ops'])
+    for _ in range(rng.range(1, 3)):
+        items.append(('instr', 0, [str(rng.range(0, k + 2))] if hasarg else []))
+        if rng.chance(0.3) and len(isa.rules) > 1 and isa.rules[-1]['m'] == 'nop':
+            items.append(('instr', len(isa.rules) - 1, []))
+    items.append(('label', 'fwd'))
+    if front == 1:
+        items.append(('label', 't0')); items.append(('data', 8, ['0'] * k)); items.append(('label', 't1'))
+        items.append(('const', 'pad', 't1 - t0'))
+    p.items = items
+    p.names = [it[1] for it in items if it[0] in ('label', 'const')]
+    return p
+
+
+class FnProg(asm_gen.Prog):
+    """a program with user-defined functions (outside the fragment of the resolver models: implementation only)"""
+    no_model = True
+
+    def __init__(self, isa, fns):
+        asm_gen.Prog.__init__(self, isa)
+        self.fns = fns
+
+    def text(self, *a, **kw):
+        return ''.join('#fn %s => %s\n' % f for f in self.fns) + asm_gen.Prog.text(self, *a, **kw)
+
+
+def gen_userfn(rng):
+    """a call of a user-defined function with literal arguments whose body reads a label / the address / a constant, as
+    instruction argument, data element or constant, behind a block that only gets its size in pass 2"""
+    isa = asm_gen.Isa()
+    isa.rules.append(dict(m='ldi', ops=[('expr', 'v', rng.choice(['u8', None]), ('', ''))], prod='0x20 @ v`8'))
+    if rng.chance(0.5):
+        isa.rules.append(dict(m='ldi', ops=[('expr', 'v', 'u16', ('', ''))], prod='0x2100 @ v'))
+    body = rng.choice(['mid + n', '$ + n', 'kq + n', 'mid * 1 + n', 'n + fwd - fwd + mid'])
+    p = FnProg(isa, [('after(n)', body)])
+    k = rng.range(1, 4)
+    items = [('res', 'fwd - fwd + %d' % k), ('label', 'mid')]
+    for _ in range(rng.range(1, 3)):
+        c = rng.below(3)
+        if c == 0:
+            items.append(('instr', 0, ['after(%d)' % rng.below(3)]))
+        elif c == 1:
+            items.append(('data', 8, ['after(%d)' % rng.below(3)]))
+        else:
+            items.append(('const', 'cf', 'after(%d)' % rng.below(3)))
+            items.append(('data', 8, ['cf']))
+            break
+    items.append(('const', 'kq', rng.choice(['mid', '5'])))
+    items.append(('label', 'fwd'))
+    p.items = items
+    p.names = [it[1] for it in items if it[0] in ('label', 'const')]
+    return p
+
+
+def gen_defines(rng):
+    """constants overridden from the command line (-d name=value): the override must behave exactly like declaring the
+    constant with that literal, under both settings of the static switch.  p.defines = {name: value text};
+    p.subst = the same program with the overridden declarations rewritten"""
+    isa = asm_gen.Isa()
+    isa.rules.append(dict(m='ld', ops=[('expr', 'x', rng.choice([None, 'u8', 'i16']), ('', ''))], prod='0x11 @ x`16'))
+    isa.rules.append(dict(m='nop', ops=[], prod=rng.choice(['0x00', '0x22 @ k0`8', '(k0 < 8) ? 0x33 : 0x4444'])))
+    p = asm_gen.Prog(isa)
+    items = []
+    if rng.chance(0.5):
+        items.append(('res', 'fwd - fwd + %d' % rng.range(0, 3)))
+    decls = [('const', 'k0', rng.choice(['1', '0x10', '200', 'fwd', '$', '3 + 4'])),
+             ('const', 'k1', rng.choice(['k0 + 1', '2', 'lbl', 'k0 < 5']))]
+    items.append(('label', 'lbl'))
+    uses = [('instr', 0, ['k0']), ('instr', 1, []), ('data', 8, ['k0']), ('data', 16, ['k1 ? 1 : 2' if decls[1][2] == 'k0 < 5' else 'k1']),
+            ('instr', 0, ['lbl + k0']), ('data', 8, ['$'])]
+    for _ in range(rng.range(2, 4)):
+        items.append(rng.choice(uses))
+    items.append(('label', 'fwd'))
+    for d in decls:
+        items.insert(rng.range(0, len(items)), d)
+    p.items = items
+    p.names = [it[1] for it in items if it[0] in ('label', 'const')]
+    defs = {}
+    for name in ['k0', 'k1']:
+        if rng.chance(0.7 if name == 'k0' else 0.3):
+            defs[name] = rng.choice(['0', '5', '0x7f', '300', '-1', 'true', 'false'])
+    if rng.chance(0.08):
+        defs[rng.choice(['lbl', 'nosuch'])] = '1'        # a define that names a label / nothing: an error in every setting
+    p.defines = defs
+    q = asm_gen.Prog(isa)
+    q.items = [(it[0], it[1], defs[it[1]]) if it[0] == 'const' and it[1] in defs else it for it in items]
+    q.names = list(p.names)
+    p.subst = q if all(n in ('k0', 'k1') for n in defs) else None
     return p
